@@ -557,6 +557,41 @@ pub fn emit(prop: &str, g: &mut Gen, out: &mut Vec<String>) {
                         let j2 = if g.rng.chance(1, 3) { j } else if g.rng.chance(1, 2) { clamp(j + g.rng.range(-2, 2), I32_MIN, I32_MAX) } else { g.jdn(&oc2) };
                         push(out, format!("cmp_date {ct} {j} {c2} {j2}"));
                         push(out, format!("cmp_cal {ct} {c2}"));
+                        // the same comparison between dates that reached (ct, j) and (c2, j2) through
+                        // other producers: conversion from a third calendar, re-construction from
+                        // the label, parsing, stepping there and back
+                        let keep = |g: &mut Gen, n: u64| -> Vec<String> {
+                            let mut v = Vec::new();
+                            for _ in 0..n {
+                                match g.rng.below(9) {
+                                    0 => v.push("y".to_string()),
+                                    1 => v.push("o".into()),
+                                    2 => v.push("t".into()),
+                                    3 => v.push("T".into()),
+                                    4 => v.push("n".into()),
+                                    5 => v.push("j".into()),
+                                    6 => v.push("u".into()),
+                                    7 => {
+                                        v.push("s".into());
+                                        v.push("p".into());
+                                    }
+                                    _ => {
+                                        v.push("p".into());
+                                        v.push("s".into());
+                                    }
+                                }
+                            }
+                            v
+                        };
+                        let (c0, _) = if g.rng.chance(1, 4) { (ct.clone(), ()) } else { (g.cal().0, ()) };
+                        let n1 = g.rng.below(3);
+                        let mut ops1 = keep(g, n1);
+                        ops1.push(format!("c{ct}"));
+                        let n1b = g.rng.below(2);
+                        ops1.extend(keep(g, n1b));
+                        let n2 = g.rng.below(3);
+                        let ops2 = keep(g, n2);
+                        push(out, format!("cmp_hist {c0} {j} {} / {c2} {j2} {}", ops1.join(" "), ops2.join(" ")).trim_end().to_string());
                         if j < I32_MAX {
                             push(out, format!("at_jdn {ct} {}", j + 1));
                         }
